@@ -55,6 +55,20 @@ def next_element(n):
 
 
 @prim
+def unesc_plain(s):
+    """RE_CSS_ESC.sub(replace, s): every escape of an identifier replaced by what it stands for."""
+    from soupsieve import css_parser as cp
+    return cp.css_unescape(s, False)
+
+
+@prim
+def unesc_string(s):
+    """RE_CSS_STR_ESC.sub(replace, s): the same inside a quoted string (an escaped newline stands for nothing)."""
+    from soupsieve import css_parser as cp
+    return cp.css_unescape(s, True)
+
+
+@prim
 def ls_starts(s):
     """Start offsets of the matches RE_PATTERN_LINE_SPLIT.finditer(s) yields: the line breaks of s, then the end of s."""
     import soupsieve.util as su
